@@ -99,8 +99,8 @@ func c02Programs(r *vc.Rand, tier string) []*atCase {
 }
 
 func runC02(r *vc.Run, replay string) {
-	r.Rule = "cases = (program, fault) pairs: small DML programs (UPDATE 1/many rows, DELETE, INSERT 1/many rows, upsert, 3-statement explicit transaction; int/composite/auto-increment/varchar keys; autocommit and explicit-transaction use) are run fault-free to record the baseline journal, then once per position k of that journal with a database error (1205/1213), a connection dropped before / after the k-th command, and with the coordinator refusing the registration (lock conflict, failure result, no reply) or refusing 1..6 branch reports after a failed phase one; oracle: register-reply < undo insert < COMMIT on the same connection with the granted branch id, business rows durable iff undo row durable, error returned and nothing durable on failure, PhaseOne_Failed reported for a registered branch, no pooled connection left idle inside a transaction; distinct_nontrivial = distinct (program shape, fault kind, command kind at the fault) signatures whose fault was actually delivered"
-	r.Assumptions = []string{"fault positions are those of the fault-free baseline journal of the same program (re-run on a fresh table)", "client crash points (SIGKILL) are exercised in the thorough tier only"}
+	r.Rule = "cases = (program, fault) pairs: small DML programs (UPDATE 1/many rows, DELETE, INSERT 1/many rows, upsert, 3-statement explicit transaction; int/composite/auto-increment/varchar keys; autocommit and explicit-transaction use) are run fault-free to record the baseline journal, then once per position k of that journal with a database error (1205/1213), a connection dropped before / after the k-th command, and with the coordinator refusing the registration (lock conflict, failure result, no reply) or refusing 1..6 branch reports after a failed phase one; oracle: register-reply < undo insert < COMMIT on the same connection with the granted branch id, business rows durable iff undo row durable, error returned and nothing durable on failure, PhaseOne_Failed reported for a registered branch, no pooled connection left idle inside a transaction; distinct_nontrivial = distinct (program shape, fault kind, command kind at the fault) signatures whose fault was actually delivered; crash points: the client process is SIGKILLed just before / right after every command position of 2 (thorough: 10) programs: business rows durable only together with their undo log and only after a granted registration"
+	r.Assumptions = []string{"fault positions are those of the fault-free baseline journal of the same program (re-run on a fresh table)", "client crash points: the client process is SIGKILLed just before / right after every command position of 2 (thorough: 10) programs, each crash in a client of its own"}
 	rnd := vc.NewRand(r.Seed, "c02")
 	progs := c02Programs(rnd, r.Tier)
 	// split programs over parallel environments; the 20 s no-reply cases get an environment of their own
@@ -131,8 +131,151 @@ func runC02(r *vc.Run, replay string) {
 		}
 		c02Batch(r, 9, progs[:k], true)
 	}()
+	wg.Add(1)
+	go func() {
+		defer wg.Done()
+		k := 2
+		if r.Tier == "thorough" {
+			k = 10
+		}
+		if len(progs) < k {
+			k = len(progs)
+		}
+		c02Crashes(r, progs[len(progs)-k:])
+	}()
 	wg.Wait()
 	r.Exhaustive = append(r.Exhaustive, "every command position of each program's baseline journal x {error, drop-before, drop-after}")
+}
+
+// c02Crashes: the client process is killed (SIGKILL) at every command position of a program, once just before the
+// command reaches the database and once right after the database received it. Each crash needs a client of its own.
+func c02Crashes(r *vc.Run, progs []*atCase) {
+	cfg := atUndoCfg{Serializer: "json", Compress: "None", Validation: true, OnlyCare: true}
+	for pi, p := range progs {
+		// baseline: number of client commands
+		env, err := newATEnv(r, fmt.Sprintf("c02-crash-%d-base", pi), cfg, false, "")
+		if err != nil {
+			r.Errorf("%v", err)
+			return
+		}
+		c := c02Clone(p, fmt.Sprintf("%s_kb", p.Name))
+		env.install(c)
+		o := env.runGtx(c, "nil", nil)
+		ncmd := 0
+		var kinds []string
+		if o.CallErr == nil {
+			for _, j := range env.db.E.JournalSince(o.StartSeq) {
+				if (j.Class == "proxied" || j.Class == "app") && j.Kind != "SET" {
+					ncmd++
+					kinds = append(kinds, j.Kind)
+				}
+			}
+		}
+		env.Close()
+		var wg sync.WaitGroup
+		sem := make(chan struct{}, 6)
+		for pos := 0; pos < ncmd; pos++ {
+			for _, when := range []string{"before", "after"} {
+				wg.Add(1)
+				go func(pos int, when string) {
+					defer wg.Done()
+					sem <- struct{}{}
+					defer func() { <-sem }()
+					c02CrashRun(r, cfg, p, pi, pos, when, kinds[pos])
+				}(pos, when)
+			}
+		}
+		wg.Wait()
+	}
+}
+
+func c02CrashRun(r *vc.Run, cfg atUndoCfg, p *atCase, pi, pos int, when, kind string) {
+	env, err := newATEnv(r, fmt.Sprintf("c02-crash-%d-%d-%s", pi, pos, when), cfg, false, "")
+	if err != nil {
+		r.Errorf("%v", err)
+		return
+	}
+	defer env.Close()
+	c := c02Clone(p, fmt.Sprintf("%s_k%d%s", p.Name, pos, when[:1]))
+	env.install(c)
+	pre := env.snap(c)
+	var mu sync.Mutex
+	n, fired := -1, false
+	env.db.E.Inject = func(j *mm.JournalEntry) *mm.Action {
+		if (j.Class != "proxied" && j.Class != "app") || j.Kind == "SET" {
+			return nil
+		}
+		mu.Lock()
+		defer mu.Unlock()
+		n++
+		if fired || n != pos {
+			return nil
+		}
+		fired = true
+		env.ch.Kill() // SIGKILL: the process is gone while this command is at the database's door
+		if when == "before" {
+			return &mm.Action{DropBefore: true}
+		}
+		return nil // the database had received the command: it executes it, the reply goes nowhere
+	}
+	start := env.w.Clock.Now()
+	env.runGtx(c, "nil", nil) // the call is lost with the process
+	env.db.E.Inject = nil
+	time.Sleep(100 * time.Millisecond) // the database notices the closed connections and rolls open transactions back
+	env.db.S.KillAll(nil)
+	time.Sleep(20 * time.Millisecond)
+	post := env.snap(c)
+	journal := env.db.E.JournalSince(start)
+	shape := fmt.Sprintf("crash|%s|%s@%s", c.Feat["stmts"], when, kind)
+	feat := map[string]string{"fault": "client-killed-" + when, "fault_at": kind}
+	for k, v := range c.Feat {
+		feat[k] = v
+	}
+	mu.Lock()
+	f := fired
+	mu.Unlock()
+	if !f {
+		r.Case("", nil)
+		return
+	}
+	o := &atOutcome{Journal: journal, TCEvents: env.w.TC.EventsSince(start)}
+	r.Case(shape, map[string]interface{}{"case": c, "killed": when + " command " + fmt.Sprint(pos) + " (" + kind + ")", "history": o.history(40)})
+	r.Count("client killed "+when+" a command", 1)
+	viol := func(clause, detail string) {
+		r.Violate(&vc.Violation{Clause: clause, Shape: shape, Features: feat, Detail: detail, Case: c, History: map[string]interface{}{"events": o.history(120)}})
+	}
+	xid := ""
+	for _, g := range env.w.TC.GlobalsByName(c.Name) {
+		xid = g.Xid
+	}
+	for _, ltx := range atLocalTxs(journal, o.TCEvents, xid, map[string]bool{"proxied": true, "app": true}) {
+		app, undo := 0, 0
+		for _, ch := range ltx.Durable {
+			if strings.EqualFold(ch.Table, "undo_log") {
+				undo++
+			} else {
+				app++
+			}
+		}
+		if app > 0 && undo == 0 {
+			viol("durable-without-undo-log", fmt.Sprintf("the client was killed %s command %d (%s); a local transaction made %d business row changes durable without an undo log row", when, pos, kind, app))
+		}
+		if app > 0 && (ltx.RegReply == nil || ltx.RegReply.Seq > ltx.EndSeq) {
+			viol("commit-before-registration", fmt.Sprintf("the client was killed %s command %d (%s); business rows became durable in a local transaction whose branch registration was not granted before the COMMIT", when, pos, kind))
+		}
+	}
+	// whatever is durable must be explained by committed local transactions: rows changed outside them
+	if d := snapDiff(pre, post); len(d) > 0 {
+		explained := false
+		for _, j := range journal {
+			if len(j.Committed) > 0 {
+				explained = true
+			}
+		}
+		if !explained {
+			viol("durable-without-commit", fmt.Sprintf("rows differ after the crash although no COMMIT made anything durable: %s", strings.Join(clipList(d, 3), "; ")))
+		}
+	}
 }
 
 func c02Batch(r *vc.Run, e int, progs []*atCase, noReplyOnly bool) {
